@@ -14,8 +14,9 @@ From H3V Require Import Base.Bytes Gen.GenCodes Gen.GenStreamFaults Spec.StreamS
    close never called, the driver returns no error), and every request meets the specification table:
    once finished it shows one of the allowed stream-level outcomes (RemoteTerminate with the peer's code
    for RESET at any offset / STOP_SENDING, H3_MESSAGE_ERROR with reset+stop_sending, HeaderTooBig with the
-   431 answer / the cancel, H3_REQUEST_INCOMPLETE with the reset), while running it has delivered a prefix of
-   its own data. *)
+   431 answer / the cancel, H3_REQUEST_INCOMPLETE with the reset; for a malformed TRAILER section
+   H3_MESSAGE_ERROR with stop_sending(H3_MESSAGE_ERROR), for an oversized one HeaderTooBig, both only once the
+   stream has ended behind the trailers), while running it has delivered a prefix of its own data. *)
 Theorem C07_confined :
   forall (l : list (rcfg * list ev)) (stops : nat -> option N) (L : option N) (G : bool) (sched : list action),
     in_class l -> Forall (action_ok stops L G) sched ->
@@ -66,14 +67,15 @@ Theorem C07_solo_equal :
     nth_error (reqs (run (filter (touches j) sched) (init_world l))) j.
 Proof. exact solo_equal. Qed.
 
-(* ... and a healthy, undisturbed request that completes has delivered exactly its own bytes, in order,
-   written exactly its own answer and finished its stream, whatever happened to its neighbours *)
+(* ... and a healthy, undisturbed request that completes has delivered exactly its own bytes, in order, and
+   its trailers iff the peer sent some, written exactly its own answer (with its own trailers when it has
+   any) and finished its stream, whatever happened to its neighbours *)
 Theorem C07_healthy_unharmed :
-  forall l stops L G sched j c S d r,
+  forall l stops L G sched j c S d t r,
     in_class l -> Forall (action_ok stops L G) sched ->
-    nth_error l j = Some (c, S) -> healthy c S = Some d -> undisturbed (env_of stops L G j) c ->
+    nth_error l j = Some (c, S) -> healthy c S = Some (d, t) -> undisturbed (env_of stops L G j) c ->
     nth_error (reqs (run sched (init_world l))) j = Some r -> res r <> None ->
-    observe r = {| ob_out := OOk; ob_data := d; ob_calls := [CFin]; ob_tx := healthy_tx c |}.
+    observe r = {| ob_out := OOk; ob_data := d; ob_trl := t; ob_calls := [CFin]; ob_tx := healthy_tx c |}.
 Proof. exact healthy_unharmed. Qed.
 
 (* ... and every in-class request does complete once the peer's events have all arrived and its task is
@@ -96,22 +98,33 @@ Theorem C07_source_facts :
   cli_malformed_stop = Some RFC_H3_REQUEST_CANCELLED /\ cli_toobig_stop = Some RFC_H3_REQUEST_CANCELLED /\
   fse_quic_via_hq = true /\ recv_err_via_fse = true /\ send_data_err_via_hq = true /\ finish_err_via_hq = true /\
   hq_unknown_stores = false /\ srv_toobig_sends_response = true /\
-  srv_toobig_variant = VHeaderTooBig /\ cli_toobig_variant = VHeaderTooBig.
+  srv_toobig_variant = VHeaderTooBig /\ cli_toobig_variant = VHeaderTooBig /\
+  (* poll_recv_trailers / send_trailers *)
+  trl_malformed_stores = false /\ trl_malformed_variant = VStreamError /\
+  trl_malformed_code = RFC_H3_MESSAGE_ERROR /\ trl_malformed_stop = Some RFC_H3_MESSAGE_ERROR /\
+  trl_toobig_stores = false /\ trl_toobig_variant = VHeaderTooBig /\
+  cli_trl_toobig_stop = Some RFC_H3_REQUEST_CANCELLED /\ trl_err_via_fse = true /\ trl_waits_for_end = true /\
+  send_trailers_err_via_hq = true /\ send_trailers_limit_cmp = true.
 Proof. repeat split; reflexivity. Qed.
 
 (* non-vacuity: a faulted and a healthy request interleaved *)
 Example C07_confined_inhabited :
-  let l := [({| c_role := Server; c_hsize := 42; c_body := [9] |}, [EHeaders HOk; EData 2 [1]; EMore [2]; EFin]);
-            ({| c_role := Server; c_hsize := 42; c_body := [] |}, [EHeaders HOk; EData 3 [7]; EReset 77])] in
-  let sched := [Open 0; Open 1; Deliver 1; Deliver 0; Poll 1; Deliver 1; Deliver 0; Deliver 1; Poll 0; Poll 1;
-                Deliver 0; Deliver 0; Poll 0; Poll 0; Poll 0; Poll 0; DriverPoll] in
+  let l := [({| c_role := Server; c_hsize := 42; c_body := [9]; c_trl := Some 36 |},
+             [EHeaders HOk; EData 2 [1]; EMore [2]; EHeaders HOk; EFin]);
+            ({| c_role := Server; c_hsize := 42; c_body := []; c_trl := None |}, [EHeaders HOk; EData 3 [7]; EReset 77]);
+            ({| c_role := Server; c_hsize := 42; c_body := []; c_trl := None |},
+             [EHeaders HOk; EData 1 [5]; EHeaders HMalformed; EFin])] in
+  let sched := [Open 0; Open 1; Open 2; Deliver 1; Deliver 0; Poll 1; Deliver 1; Deliver 0; Deliver 1; Poll 0; Poll 1;
+                Deliver 2; Deliver 2; Poll 2; Deliver 2; Deliver 2; Poll 2;
+                Deliver 0; Deliver 0; Deliver 0; Poll 0; Poll 0; Poll 0; Poll 0; Poll 0; DriverPoll] in
   in_class l /\ Forall (action_ok (fun _ => None) None false) sched /\
   map observe (reqs (run sched (init_world l))) =
-    [{| ob_out := OOk; ob_data := [1; 2]; ob_calls := [CFin]; ob_tx := [WHeaders 200; WData [9]] |};
-     {| ob_out := OStreamErr KRemoteTerminate (Some 77); ob_data := []; ob_calls := []; ob_tx := [] |}].
+    [{| ob_out := OOk; ob_data := [1; 2]; ob_trl := true; ob_calls := [CFin]; ob_tx := [WHeaders 200; WData [9]; WTrailers] |};
+     {| ob_out := OStreamErr KRemoteTerminate (Some 77); ob_data := []; ob_trl := false; ob_calls := []; ob_tx := [] |};
+     {| ob_out := OStreamErr KStreamError (Some 270); ob_data := [5]; ob_trl := false; ob_calls := [CStop 270]; ob_tx := [] |}].
 Proof.
   cbv zeta. split; [|split].
-  - intros i c S H. destruct i as [|[|i]]; cbn in H; try (destruct i; discriminate H);
+  - intros i c S H. destruct i as [|[|[|i]]]; cbn in H; try (destruct i; discriminate H);
       injection H as H1 H2; subst; vm_compute; discriminate.
   - repeat constructor.
   - vm_compute. reflexivity.
@@ -119,7 +132,7 @@ Qed.
 Example C07_store_is_visible_inhabited :
   (* the model does distinguish: a connection-level fault (DATA before HEADERS) stores, the driver closes *)
   let w := run [Open 0; Deliver 0; Poll 0; DriverPoll]
-               (init_world [({| c_role := Server; c_hsize := 42; c_body := [] |}, [EData 1 [1]; EFin])]) in
+               (init_world [({| c_role := Server; c_hsize := 42; c_body := []; c_trl := None |}, [EData 1 [1]; EFin])]) in
   conn_quiet (observe_conn (sh w)) = false /\ closes (sh w) = [H3_FRAME_UNEXPECTED].
 Proof. vm_compute. split; reflexivity. Qed.
 
